@@ -272,7 +272,15 @@ func (s *DenseStore) Reweight(w float64) error {
 	for idx := s.minIndex; idx <= s.maxIndex; idx++ {
 		s.bins[idx-s.offset] *= w
 	}
-	if s.count == 0 {
+	// Counts may have underflowed to zero: the index range must not keep
+	// covering empty bins at its ends.
+	for s.minIndex <= s.maxIndex && s.bins[s.minIndex-s.offset] == 0 {
+		s.minIndex++
+	}
+	for s.minIndex <= s.maxIndex && s.bins[s.maxIndex-s.offset] == 0 {
+		s.maxIndex--
+	}
+	if s.count == 0 || s.minIndex > s.maxIndex {
 		// All the counts have underflowed to zero: the store is now empty and
 		// must not keep the index range it used to cover.
 		s.Clear()
